@@ -305,6 +305,12 @@ def main():
                                  "the frames, the messages did not all arrive intact and in order: %s" % (
                                      c["runtime"], r.get("cancels"), r.get("results", r)),
                                  {"case": c, "impl": r}, tag="sock%d" % c["id"])
+    # ---- the server loop drops and re-creates the transports' read and accept futures on every turn:
+    # real Server::run over real sockets (lib/rsrv.py), scenarios in which another arm wins while a call
+    # is half received or a client has just been accepted
+    import rsrv
+    rsrv.run_rsrv(ck, only=("connect_while_call_ready", "split_call_between_others", "connect_during_flood",
+                            "write_then_half_close", "oneway_then_exit"))
     hashes = {case_hash([c["target"], c["events"], c["n"], c["cancel"]]) for c in cases}
     nontriv = {case_hash([c["target"], c["events"], c["n"], c["cancel"]]) for c in cases if c["cancel"]}
     hist = {}
